@@ -1,3 +1,406 @@
 package main
 
-func record(args []string) {}
+import (
+	"encoding/json"
+	"fmt"
+	"math"
+	"math/rand"
+	"os"
+	"path/filepath"
+	"strconv"
+	"strings"
+
+	"verifharness/vh"
+)
+
+// record direction (code -> model): seeded random objects of larger size are
+// encoded and decoded by the real code; the produced document is parsed
+// generically into the abstract document form of Serialization.tla (field
+// names, lengths, index lists, values classified back to atoms) and logged
+// together with the abstract object and the projection of the decoded object.
+// spec/SerializationTrace.tla checks  document = Encode(object)  and
+// decoded = what the format carries of the object.
+
+type absDoc map[string]interface{}
+
+func numNode(et *etype, lit string, deriv bool) absDoc {
+	return absDoc{"t": "num", "a": classifyLiteral(et, lit, deriv)}
+}
+
+func classifyLiteral(et *etype, lit string, deriv bool) string {
+	if et.IsInt && !deriv {
+		i, err := strconv.ParseInt(lit, 10, 64)
+		if err != nil {
+			return "other"
+		}
+		return classify(et, uint64(i))
+	}
+	bits := 64
+	if et.Bits == 32 {
+		bits = 32
+	}
+	x, err := strconv.ParseFloat(lit, bits)
+	if err != nil {
+		return "other"
+	}
+	ft := *et
+	ft.IsInt = false
+	return classify(&ft, math.Float64bits(x))
+}
+
+func intNode(v interface{}) absDoc {
+	if i, ok := asInt(v); ok {
+		return absDoc{"t": "int", "i": i}
+	}
+	return absDoc{"t": "other"}
+}
+
+func scalarDocNode(et *etype, v interface{}) absDoc {
+	switch x := v.(type) {
+	case json.Number:
+		return numNode(et, string(x), false)
+	case map[string]interface{}:
+		f := absDoc{}
+		for k, e := range x {
+			switch k {
+			case "Value":
+				if n, ok := e.(json.Number); ok {
+					f[k] = numNode(et, string(n), false)
+				} else {
+					f[k] = absDoc{"t": "other"}
+				}
+			case "Derivative":
+				f[k] = arrNode(e, func(y interface{}) interface{} {
+					if n, ok := y.(json.Number); ok {
+						return numNode(et, string(n), true)
+					}
+					return absDoc{"t": "other"}
+				})
+			case "Hessian":
+				f[k] = arrNode(e, func(row interface{}) interface{} {
+					return arrNode(row, func(y interface{}) interface{} {
+						if n, ok := y.(json.Number); ok {
+							return numNode(et, string(n), true)
+						}
+						return absDoc{"t": "other"}
+					})
+				})
+			default:
+				f[k] = absDoc{"t": "other"}
+			}
+		}
+		return absDoc{"t": "obj", "f": f}
+	}
+	return absDoc{"t": "other"}
+}
+
+func arrNode(v interface{}, el func(interface{}) interface{}) absDoc {
+	a, ok := v.([]interface{})
+	if !ok {
+		return absDoc{"t": "other"}
+	}
+	r := make([]interface{}, len(a))
+	for i, x := range a {
+		r[i] = el(x)
+	}
+	return absDoc{"t": "arr", "v": r}
+}
+
+// abstractJSON: real JSON bytes -> abstract document
+func abstractJSON(et *etype, o *absObj, b []byte) absDoc {
+	root, err := parseGeneric(b)
+	if err != nil {
+		return absDoc{"t": "broken"}
+	}
+	elem := func(x interface{}) interface{} { return scalarDocNode(et, x) }
+	switch o.K {
+	case "scalar":
+		return scalarDocNode(et, root)
+	case "vector":
+		if o.St == "dense" {
+			return arrNode(root, elem)
+		}
+	case "matrix":
+	}
+	m, ok := root.(map[string]interface{})
+	if !ok {
+		return absDoc{"t": "other"}
+	}
+	f := absDoc{}
+	for k, e := range m {
+		switch k {
+		case "Index":
+			f[k] = arrNode(e, func(y interface{}) interface{} { return intNode(y) })
+		case "Value":
+			f[k] = arrNode(e, func(y interface{}) interface{} {
+				if n, ok := y.(json.Number); ok {
+					return numNode(et, string(n), false)
+				}
+				return absDoc{"t": "other"}
+			})
+		case "Values":
+			f[k] = arrNode(e, elem)
+		case "Length", "Rows", "Cols":
+			f[k] = intNode(e)
+		default:
+			f[k] = absDoc{"t": "other"}
+		}
+	}
+	return absDoc{"t": "obj", "f": f}
+}
+
+// abstractTable: real table bytes -> abstract document (empty lines carry nothing)
+func abstractTable(et *etype, o *absObj, b []byte) absDoc {
+	raw := strings.Split(string(b), "\n")
+	lines := []interface{}{}
+	li := -1
+	for _, l := range raw {
+		toks := strings.Fields(l)
+		if len(toks) == 0 {
+			continue // the readers skip empty lines; so does the abstract document
+		}
+		li++
+		line := []interface{}{}
+		for ti, t := range toks {
+			isInt := false
+			if o.St == "sparse" {
+				if li == 0 {
+					isInt = true
+				} else if o.K == "vector" {
+					isInt = ti == 0
+				} else {
+					isInt = ti <= 1
+				}
+			}
+			if isInt {
+				i, err := strconv.ParseInt(t, 10, 64)
+				if err != nil {
+					line = append(line, absDoc{"t": "other"})
+				} else {
+					line = append(line, absDoc{"t": "int", "i": i})
+				}
+			} else {
+				line = append(line, numNode(et, t, false))
+			}
+		}
+		lines = append(lines, line)
+	}
+	return absDoc{"t": "table", "l": lines}
+}
+
+// projection of a decoded object into the abstract form of Serialization!Carried
+func abstractObject(et *etype, x interface{}) vh.M {
+	o := observe(et, x)
+	ft := *et
+	ft.IsInt = false
+	switch o.Kind {
+	case "scalar":
+		grad := []string{}
+		for _, g := range o.Grad {
+			grad = append(grad, classify(&ft, g))
+		}
+		hess := [][]string{}
+		for _, row := range o.Hess {
+			r := []string{}
+			for _, h := range row {
+				r = append(r, classify(&ft, h))
+			}
+			hess = append(hess, r)
+		}
+		n := o.N
+		if o.Order == 0 {
+			n = 0
+		}
+		return vh.M{"k": "scalar", "v": classify(et, o.Bits[0]), "order": o.Order, "n": n, "grad": grad, "hess": hess}
+	case "vector", "matrix":
+		c := []vh.M{}
+		for k, b := range o.Bits {
+			n, hot := 0, -1
+			if et.Real && k < len(o.ElN) {
+				n, hot = o.ElN[k], o.ElHot[k]
+			}
+			c = append(c, vh.M{"a": classify(et, b), "n": n, "hot": hot})
+		}
+		if o.Kind == "vector" {
+			return vh.M{"k": "vector", "n": o.Dims[0], "c": c, "iter": o.IterOK == ""}
+		}
+		return vh.M{"k": "matrix", "rows": o.Dims[0], "cols": o.Dims[1], "c": c, "iter": o.IterOK == ""}
+	}
+	return vh.M{"k": "other"}
+}
+
+func typeAtoms(et *etype) []string {
+	r := []string{}
+	for _, a := range atomNames {
+		if _, ok := atomValue(et, a); ok && a != "zero" {
+			r = append(r, a)
+		}
+	}
+	return r
+}
+
+func randContent(rng *rand.Rand, et *etype, n int) []string {
+	atoms := typeAtoms(et)
+	c := make([]string, n)
+	pz := []float64{0.2, 0.5, 0.8}[rng.Intn(3)]
+	for i := range c {
+		if rng.Float64() < pz {
+			c[i] = "zero"
+		} else {
+			c[i] = atoms[rng.Intn(len(atoms))]
+		}
+	}
+	return c
+}
+
+func window(rng *rand.Rand, n int) (int, int) {
+	a := rng.Intn(n + 1)
+	b := a + rng.Intn(n-a+1)
+	return a, b
+}
+
+func randObject(rng *rand.Rand, sparseViews bool) (*etype, *absObj) {
+	kinds := []string{"scalar", "vector", "vector", "matrix", "matrix", "matrix"}
+	k := kinds[rng.Intn(len(kinds))]
+	var names []string
+	switch k {
+	case "scalar":
+		names = []string{"Float64", "Float32", "Int", "Int8", "Int16", "Int32", "Int64", "Real64", "Real32", "Real64", "Real32",
+			"ConstFloat64", "ConstFloat32", "ConstInt", "ConstInt8", "ConstInt16", "ConstInt32", "ConstInt64"}
+	default:
+		names = []string{"Float64", "Float32", "Int", "Int8", "Int16", "Int32", "Int64", "Real64", "Real32"}
+	}
+	et := etypes[names[rng.Intn(len(names))]]
+	o := &absObj{K: k, Cls: "plain", Dv: "none", St: "none", Grad: []string{}, Hess: [][]string{}, C: []string{}, View: []viewOp{}}
+	if et.Real {
+		o.Cls = "real"
+	}
+	switch k {
+	case "scalar":
+		if !et.Real {
+			o.Cls = "bare"
+		}
+		atoms := append(typeAtoms(et), "zero")
+		o.V = atoms[rng.Intn(len(atoms))]
+		if et.Real {
+			o.Order = rng.Intn(3)
+			if o.Order > 0 {
+				o.N = rng.Intn(4)
+				da := []string{"zero", "zero", "one", "negzero", "half", "minusTwo", "subnormal", "maxfinite"}
+				for i := 0; i < o.N; i++ {
+					o.Grad = append(o.Grad, da[rng.Intn(len(da))])
+				}
+				if o.Order == 2 {
+					allZero := rng.Intn(3) == 0
+					for i := 0; i < o.N; i++ {
+						row := []string{}
+						for j := 0; j < o.N; j++ {
+							if allZero {
+								row = append(row, "zero")
+							} else {
+								row = append(row, da[rng.Intn(len(da))])
+							}
+						}
+						o.Hess = append(o.Hess, row)
+					}
+				}
+			}
+		}
+	case "vector":
+		o.St = []string{"dense", "sparse"}[rng.Intn(2)]
+		o.N = rng.Intn(17)
+		o.C = randContent(rng, et, o.N)
+		if et.Real && rng.Intn(2) == 0 {
+			o.Dv = "var"
+		}
+		if rng.Intn(3) == 0 {
+			a, b := window(rng, o.N)
+			o.View = []viewOp{{Op: "S", I: a, J: b}}
+		}
+	case "matrix":
+		o.St = []string{"dense", "sparse"}[rng.Intn(2)]
+		o.Rows = rng.Intn(6)
+		o.Cols = rng.Intn(6)
+		for o.Rows*o.Cols > 16 {
+			o.Rows = rng.Intn(6)
+			o.Cols = rng.Intn(6)
+		}
+		o.C = randContent(rng, et, o.Rows*o.Cols)
+		if et.Real && rng.Intn(2) == 0 {
+			o.Dv = "var"
+		}
+		r, c := o.Rows, o.Cols
+		steps := rng.Intn(3)
+		for s := 0; s < steps; s++ {
+			if rng.Intn(2) == 0 {
+				o.View = append(o.View, viewOp{Op: "T"})
+				r, c = c, r
+			} else {
+				if o.St == "sparse" && !sparseViews {
+					continue
+				}
+				r0, r1 := window(rng, r)
+				c0, c1 := window(rng, c)
+				o.View = append(o.View, viewOp{Op: "S", R0: r0, R1: r1, C0: c0, C1: c1})
+				r, c = r1-r0, c1-c0
+			}
+		}
+	}
+	return et, o
+}
+
+// record <trace.ndjson> <n> <scratch> [sparseViews]
+func record(args []string) {
+	if len(args) < 3 {
+		vh.Fatal("usage: serial record trace n scratch [sparse-views]")
+	}
+	n, _ := strconv.Atoi(args[1])
+	scratch := args[2]
+	os.MkdirAll(scratch, 0755)
+	sparseViews := len(args) > 3 && args[3] == "sparse-views"
+	seed := vh.EnvInt("VERIF_SEED", 1)
+	rng := rand.New(rand.NewSource(int64(seed)*1000003 + 18))
+	out := vh.NewOut(args[0])
+	defer out.Close()
+	path := filepath.Join(scratch, "rec.table")
+	for i := 0; i < n; i++ {
+		et, o := randObject(rng, sparseViews)
+		format := "json"
+		if o.K != "scalar" && rng.Intn(2) == 0 {
+			format = "table"
+		}
+		ev := vh.M{"e": "enc", "type": et.Name, "obj": o, "fmt": format}
+		src, err := buildObj(et, o)
+		if err != nil {
+			vh.Mismatch(out, vh.M{"engine": "serial", "mode": "record", "kind": o.K, "storage": o.St, "format": format,
+				"view": o.viewWord(), "type": et.Name, "what": "construct"}, vh.M{"event": ev, "message": err.Error(), "seed": seed, "index": i})
+			continue
+		}
+		doc, err, pm := encode(src, format, path)
+		if err != nil || pm != "" {
+			vh.Mismatch(out, vh.M{"engine": "serial", "mode": "record", "kind": o.K, "storage": o.St, "format": format,
+				"view": o.viewWord(), "type": et.Name, "what": "encode"}, vh.M{"event": ev, "message": fmt.Sprint(err, pm), "seed": seed, "index": i})
+			continue
+		}
+		if format == "json" {
+			ev["doc"] = abstractJSON(et, o, doc)
+		} else {
+			ev["doc"] = abstractTable(et, o, doc)
+		}
+		dec, err, pm := decode(et, src, format, doc, path, format == "table")
+		if err != nil || pm != "" {
+			vh.Mismatch(out, vh.M{"engine": "serial", "mode": "record", "kind": o.K, "storage": o.St, "format": format,
+				"view": o.viewWord(), "type": et.Name, "what": "decode"}, vh.M{"event": ev, "message": fmt.Sprint(err, pm), "document": head(string(doc), 600), "seed": seed, "index": i})
+			continue
+		}
+		var ao vh.M
+		if p := vh.Try(func() { ao = abstractObject(et, dec) }); p != "" {
+			vh.Mismatch(out, vh.M{"engine": "serial", "mode": "record", "kind": o.K, "storage": o.St, "format": format,
+				"view": o.viewWord(), "type": et.Name, "what": "corrupt_object"}, vh.M{"event": ev, "message": p, "document": head(string(doc), 600), "seed": seed, "index": i})
+			continue
+		}
+		ev["dec"] = ao
+		ev["raw"] = head(string(doc), 300)
+		out.Put(ev)
+	}
+}
